@@ -131,15 +131,16 @@ func c16RawExec(c *core.Ctx, in c16Raw) {
 	c.Distinct(core.Hash64("raw", data), len(data) >= 4)
 	pco := nasConvert.NewProtocolConfigurationOptions()
 	var err error
-	cp := append([]byte{}, data...)
+	guardReset()
+	cp := guardIn(data)
 	pi := core.Try(func() { err = pco.UnMarshal(cp) })
 	fail := func(k, w string) { c.FailCase("pco|"+k, w, "pco-raw", in) }
 	if pi != nil {
 		fail("UnMarshal|"+pi.Key(), fmt.Sprintf("UnMarshal(%x) panics: %s", clip(data), pi.Msg))
 		return
 	}
-	if !bytes.Equal(cp, data) {
-		fail("UnMarshal|mutates-input", "input modified")
+	if w := guardCheck(); w != "" || !bytes.Equal(cp, data) {
+		fail("UnMarshal|mutates-input", fmt.Sprintf("UnMarshal(%x): %s", clip(data), w))
 		return
 	}
 	// every parsed unit must be literally in the input at the offset a straightforward reader computes
@@ -177,11 +178,16 @@ func c16PsiExec(c *core.Ctx, in c16Psi) {
 		if !ok {
 			buf = nil
 		}
-		back = nasConvert.PSIToBooleanArray(append([]byte{}, want...))
-		back2 = nasConvert.PSIToBuf(nasConvert.PSIToBooleanArray(append([]byte{}, want...)))
+		guardReset()
+		back = nasConvert.PSIToBooleanArray(guardIn(want))
+		back2 = nasConvert.PSIToBuf(nasConvert.PSIToBooleanArray(guardIn(want)))
 	})
 	if pi != nil {
 		c.FailCase("psi|"+pi.Key(), "panics: "+pi.Msg, "psi", in)
+		return
+	}
+	if w := guardCheck(); w != "" {
+		c.FailCase("psi|PSIToBooleanArray|writes-to-callers-buffer", fmt.Sprintf("PSIToBooleanArray(%x): %s", want, w), "psi", in)
 		return
 	}
 	if !bytes.Equal(buf, want) {
